@@ -222,3 +222,76 @@ def printed_texts(prog, body):
                         text = txt
             out.append((bb, t["line"], "stdout" if n.endswith("_print") else "stderr", text))
     return out
+
+
+ONCE_TYPES = ("std::sync::once_lock::OnceLock<", "std::sync::lazy_lock::LazyLock<", "core::cell::once::OnceCell<", "core::cell::lazy::LazyCell<")
+
+
+def write_once_static(prog, name, static):
+    """Is `static` a write-once cell whose value cannot depend on anything that happened before: its type is OnceLock / LazyLock,
+    its payload type has no interior mutability of its own, and every use in the workspace is `get()` or `get_or_init(closure)`
+    with a closure that captures nothing (so the value is a function of constants; what the initialiser calls is subject to the
+    reachability rules of the function using it).  -> (bool, reason)"""
+    ty = static["ty"]
+    if not ty.startswith(ONCE_TYPES):
+        return False, "not a OnceLock/LazyLock"
+    inner = ty[ty.index("<") + 1:]
+    if any(m in inner for m in INTERIOR_MUT):
+        return False, "payload has interior mutability"
+    uses = 0
+    for b in prog.bodies.values():
+        tb = None
+        refs = set()
+        for bb, blk in enumerate(b.blocks):
+            for s_ in blk["stmts"]:
+                if s_["k"] == "assign" and _mentions_static(s_["rv"], name):
+                    refs.add(s_["place"]["l"])
+        if not refs:
+            continue
+        from dataflow import Deps, operand_locals
+        pts = Deps(b)
+        # locals that are (re)borrows of the static
+        grew = True
+        while grew:
+            grew = False
+            for blk in b.blocks:
+                for s_ in blk["stmts"]:
+                    if s_["k"] == "assign" and not s_["place"]["p"] and s_["place"]["l"] not in refs:
+                        rv = s_["rv"]
+                        src = None
+                        if "ref" in rv:
+                            src = rv["ref"]["l"]
+                        elif "use" in rv:
+                            q = rv["use"].get("copy") or rv["use"].get("move")
+                            src = q["l"] if q else None
+                        if src in refs:
+                            refs.add(s_["place"]["l"])
+                            grew = True
+        for bb, t in b.calls():
+            if not any(l in refs for a in t["args"] for l in operand_locals(a)):
+                continue
+            uses += 1
+            n = callee_name(t)
+            last = n.split("::")[-1]
+            if last in ("get", "deref", "force"):
+                continue
+            if last in ("get_or_init", "get_or_try_init"):
+                tb = tb or TermBuilder(prog, b)
+                c = tb.operand(t["args"][1])
+                if c[0] == "agg" and str(c[1]).startswith("closure:") and len(c[2]) == 0:
+                    continue
+                if c[0] == "fn":
+                    continue
+                return False, "initialiser passed to %s in %s captures values" % (last, b.name)
+            return False, "used through %s in %s" % (n, b.name)
+    return uses > 0, "%d use(s), all get / get_or_init with a capture-free initialiser" % uses
+
+
+def _mentions_static(x, name):
+    if isinstance(x, dict):
+        if x.get("$static") == name:
+            return True
+        return any(_mentions_static(v, name) for v in x.values())
+    if isinstance(x, list):
+        return any(_mentions_static(v, name) for v in x)
+    return False
